@@ -139,6 +139,119 @@ theorem c06_gen_server_no_users (ov : Bool) (g : ServerAeadCodec CM XR) (w : W) 
 example : ∃ g : ServerAeadCodec Unit Unit, g.decode_state = .Init ∧ g.keys = [] := ⟨⟨[], .Init, .Init⟩, rfl, rfl⟩
 
 
+/-! ### the server side (added): `matching`, `open_header`, the header parse, `decode_header`, the `Ready` state -/
+section serverProps
+open Octo.VmessBodyGen (RelN SessD)
+
+/-- the i64 guard is satisfiable: trivially for an empty table, and for every table whenever every CRC-valid timestamp is not 2^63 s old -/
+example (C : Crypto) (a : Bytes) (now : Nat) : MatchGuard C a [] now := fun _ h => by cases h
+
+/-- **C06 / C10 — `auth_id::matching` is the model's `authIdMatch`**: every user table, every 16-byte auth id, both profiles, inside
+`-2^63 < t - now` (`MatchGuard`; outside: `c10_gen_window_wrap_difference`): no panic, `Ok` of the FIRST configured key under which
+the token decrypts (AES-128 under KDF16(key, "AES Auth ID Encryption")) to a valid CRC-32 AND a timestamp with `|t − now| ≤ 120`
+(both sides); keys that are not in the table are never tried; the clock still shows the same time afterwards -/
+theorem c10_gen_matching_is_model (A : HExtOk X C) (hC : C.Lawful) (ov : Bool) (authId : Bytes) (ha : authId.length = 16)
+    (keys : List Bytes) (w : W) (hg : MatchGuard C authId keys (A.nowOf w)) :
+    ∃ w', AuthId.matching X ov w authId keys = PWGen.Res.ok (w', RResult.ok (authIdMatch C authId keys (A.nowOf w))) ∧
+      A.nowOf w' = A.nowOf w :=
+  matching_eq A hC ov authId ha keys w hg
+
+/-- **C04 / C07 — `encrypt::open_header` is the model's `openHeader`**: never a panic, nothing consumed until the whole sealed header
+is buffered (any segmentation), `Err` untouched when not authentic, exactly the sealed header consumed otherwise -/
+theorem c04_gen_open_header_is_model (A : HExtOk X C) (hC : C.Lawful) (ov : Bool) (key src : Bytes) (hl : src.length < 2 ^ 64) :
+    Encrypt.open_header X ov key src = embedOpen src (openHeader C key src) :=
+  open_header_eq A hC ov key src hl
+
+/-- **C06 / C10 / C04 / C07 — the header phase of the generated `ServerAeadCodec::decode` is the model's `Server.decode`** (see
+`gen_server_init` for the case list): relays only behind `authIdMatch` over the CONFIGURED keys with the time window, waits without
+consuming until the sealed header is complete, refuses (never panics on) every authentic-but-malformed header, and hands exactly the
+model's parsed fields to `serverFinish` -/
+theorem c06_gen_server_header_phase (A : HExtOk X C) (hC : C.Lawful) (ov : Bool) (g : ServerAeadCodec CM XR) (w : W) (buf : Bytes)
+    (hs : g.decode_state = .Init) (hl : buf.length < 2 ^ 64) (h16 : 16 ≤ buf.length)
+    (hguard : MatchGuard C (buf.take 16) g.keys (A.nowOf w)) :
+    ∃ w', A.nowOf w' = A.nowOf w ∧
+      match authIdMatch C (buf.take 16) g.keys (A.nowOf w) with
+      | none => ServerAeadCodec.Decoder_decode X ov g w buf = PWGen.Res.ok (g, w', buf, RResult.err)
+      | some key =>
+        match openHeader C key buf with
+        | .more => ServerAeadCodec.Decoder_decode X ov g w buf = PWGen.Res.ok (g, w', buf, RResult.ok none)
+        | .err => ServerAeadCodec.Decoder_decode X ov g w buf = PWGen.Res.ok (g, w', buf, RResult.err)
+        | .panic => False
+        | .ok (h, n) =>
+          match parseRequest C X.utf8_ok h with
+          | .ok (s, mask, sec, cmd, addr) =>
+            ∃ x, Octo.VmessAddrGen.toAddr x = addr ∧ s = ⟨(h.drop 1).take 16, (h.drop 17).take 16, h.getD 33 0⟩ ∧
+              mask = (h.getD 34 0).toNat ∧ (hdrOf h x key).command = cmdG cmd ∧
+              ServerAeadCodec.Decoder_decode X ov g w buf =
+                serverFinish X ov g w' (buf.drop n) (hdrOf h x key) (X.server_session_new s.reqIv s.reqKey s.respHeader)
+          | .panic => False
+          | _ => ServerAeadCodec.Decoder_decode X ov g w buf = PWGen.Res.ok (g, w', buf.drop n, RResult.err) :=
+  gen_server_init A hC ov g w buf hs hl h16 hguard
+
+/-- **C04 — the TCP arm of `decode_header` emits `ConnectTcp` at once**: with the header complete the result is
+`ConnectTcp(first body bytes, address)` = the model's run of body units; `Err` only if a buffered chunk fails; no panic -/
+theorem c04_gen_server_connect_at_once (B : Octo.VmessBodyGen.ExtOk X.body C) (hC : C.Lawful) (ov : Bool) (hdr : RequestHeader)
+    (d : AEADBodyCodec CM XR) (b : Body) (src : Bytes) (sess : ServerSession) (hc : hdr.command = .TCP)
+    (h : RelN B d b) (hs : SessD (.ServerSession sess) b) (h64 : src.length < 2 ^ 64) :
+    ∃ d' sess', ServerAeadCodec.decode_header X ov src hdr sess d =
+        PWGen.Res.ok ((Fr.run (Body.unit C) b src).buf, hdr, sess', d',
+          if (Fr.run (Body.unit C) b src).failed then RResult.err
+          else RResult.ok (some (InboundIn.ConnectTcp (Fr.run (Body.unit C) b src).out hdr.address))) ∧
+      RelN B d' (Fr.run (Body.unit C) b src).st ∧ SessD (.ServerSession sess') (Fr.run (Body.unit C) b src).st :=
+  gen_decode_header_tcp B hC ov hdr d b src sess hc h hs h64
+
+/-- … in particular **with NO body chunk buffered** (the header ends the read): `ConnectTcp(empty, address)`, not `Ok(None)` -/
+theorem c04_gen_server_connect_without_body (B : Octo.VmessBodyGen.ExtOk X.body C) (hC : C.Lawful) (ov : Bool) (hdr : RequestHeader)
+    (d : AEADBodyCodec CM XR) (b : Body) (sess : ServerSession) (hc : hdr.command = .TCP) (hp : b.st = .padding)
+    (h : RelN B d b) (hs : SessD (.ServerSession sess) b) :
+    ∃ d' sess', ServerAeadCodec.decode_header X ov [] hdr sess d =
+        PWGen.Res.ok ([], hdr, sess', d', RResult.ok (some (InboundIn.ConnectTcp [] hdr.address))) := by
+  obtain ⟨d', sess', he, _, _⟩ := gen_decode_header_tcp (X := X) B hC ov hdr d b [] sess hc h hs (by decide)
+  rw [Octo.VmessBodyGen.run_nil C b hp] at he
+  exact ⟨d', sess', he⟩
+
+/-- **C02 / C04 — the UDP arm of `decode_header`**: `RelayUdp` only with a complete datagram chunk, `Ok(None)` otherwise -/
+theorem c04_gen_server_udp_header (B : Octo.VmessBodyGen.ExtOk X.body C) (hC : C.Lawful) (ov : Bool) (hdr : RequestHeader)
+    (d : AEADBodyCodec CM XR) (b : Body) (src : Bytes) (sess : ServerSession) (hc : hdr.command = .UDP)
+    (h : RelN B d b) (hs : SessD (.ServerSession sess) b) (h64 : src.length < 2 ^ 64) :
+    ∃ d' sess', ServerAeadCodec.decode_header X ov src hdr sess d =
+        PWGen.Res.ok ((bodyDrainPacket C 3 b src).2.1, hdr, sess', d',
+          match (bodyDrainPacket C 3 b src).2.2 with
+          | .ok o => RResult.ok (some (InboundIn.RelayUdp o hdr.address))
+          | .more => RResult.ok none
+          | _ => RResult.err) ∧
+      RelN B d' (bodyDrainPacket C 3 b src).1 ∧ SessD (.ServerSession sess') (bodyDrainPacket C 3 b src).1 :=
+  gen_decode_header_udp B hC ov hdr d b src sess hc h hs h64
+
+/-- **C04 — the `Ready` state**: an empty buffer is `Ok(None)` with the state untouched; otherwise one `decode_body` = the model's
+`bodyDecode` (TCP: `RelayTcp` of what the run released; UDP: one datagram), same buffer, related new state, no panic -/
+theorem c04_gen_server_ready (B : Octo.VmessBodyGen.ExtOk X.body C) (hC : C.Lawful) (ov : Bool) (g : ServerAeadCodec CM XR) (w : W)
+    (hdr : RequestHeader) (sess : ServerSession) (d : AEADBodyCodec CM XR) (b : Body) (src : Bytes) (cmd : Cmd)
+    (hst : g.decode_state = .Ready hdr sess d) (hc : hdr.command = cmdG cmd)
+    (h : RelN B d b) (hs : SessD (.ServerSession sess) b) (h64 : src.length < 2 ^ 64) :
+    if src = [] then ServerAeadCodec.Decoder_decode X ov g w src = PWGen.Res.ok (g, w, src, RResult.ok none)
+    else ∃ d' sess' res, ServerAeadCodec.Decoder_decode X ov g w src =
+        PWGen.Res.ok ({ g with decode_state := .Ready hdr sess' d' }, w, (bodyDecode C cmd b src).2.1, res) ∧
+      (match (bodyDecode C cmd b src).2.2 with
+        | .ok o => res = RResult.ok (some (if cmd = .tcp then InboundIn.RelayTcp o else InboundIn.RelayUdp o hdr.address))
+        | .more => res = RResult.ok none
+        | _ => res = RResult.err) ∧
+      RelN B d' (bodyDecode C cmd b src).1 ∧ SessD (.ServerSession sess') (bodyDecode C cmd b src).1 :=
+  gen_server_ready B hC ov g w hdr sess d b src cmd hst hc h hs h64
+/-- the body-codec hypotheses are those of `Octo/Props/C04VmessBodyGen.lean` (examples there: `extOf_ok`, `rel_genOf`, `sessD_sessOf`) -/
+example (C : Crypto) : Octo.VmessBodyGen.ExtOk (hextOf C).body C := Octo.VmessBodyGen.extOf_ok C
+
+/-- **C07 — the body codec cannot change the implementor behind `&mut dyn Session`**: whatever `decode_payload` / `decode_packet`
+return, the session is of the kind it was given — the `Flow.as_server` / `Flow.as_client` projections of the generated callers never
+panic (proved from the generated code of `Octo.VmessBodyGen` with a partial-correctness loop rule, for ARBITRARY externals) -/
+theorem c07_gen_body_keeps_implementor {RNG : Type} (Bx : Octo.VmessBodyGen.Ext CM XR RNG) (ov : Bool) (g : AEADBodyCodec CM XR)
+    (src : Bytes) (s : DynSession) (r : AEADBodyCodec CM XR × Bytes × DynSession × RResult (Option Bytes)) :
+    (Octo.VmessBodyGen.AEADBodyCodec.decode_payload Bx ov g src s = PWGen.Res.ok r → kind r.2.2.1 = kind s) ∧
+    (Octo.VmessBodyGen.AEADBodyCodec.decode_packet Bx ov g src s = PWGen.Res.ok r → kind r.2.2.1 = kind s) :=
+  ⟨decode_payload_kind Bx ov g src s r, decode_packet_kind Bx ov g src s r⟩
+
+end serverProps
+
 /-! ### where the code and the model differ: the i64 edge of the time window -/
 
 /-- **C10 — difference between `auth_id::matching` as written and the model's `authIdMatch`**: the code's window test
